@@ -15,13 +15,25 @@ type LexerReader struct {
 
 func New(r bufio.Reader) LexerReader {
 	content, _ := io.ReadAll(&r)
-	runes := []rune(string(content))
+	runes := replaceNUL([]rune(string(content)))
 
 	return LexerReader{
 		runes:    runes,
 		pos:      0,
 		ungetFlg: false,
 	}
+}
+
+// replaceNUL turns NUL runes into spaces: rune 0 is the reader's end-of-input
+// marker, so a NUL inside the file would end the token stream early.
+func replaceNUL(runes []rune) []rune {
+	for i, r := range runes {
+		if r == 0 {
+			runes[i] = ' '
+		}
+	}
+
+	return runes
 }
 
 func (lr *LexerReader) Read() rune {
